@@ -129,6 +129,17 @@ CLAIMED = {
         note="Trusted: Coq kernel + Reals axioms; FITPACK interpolants (rebuilt independently from the inputs by the oracle); translator translate/geom1.py; the hand model of closure "
              "binding.  The accuracy of the O-/X-point positions is C19's matter: scalars are compared within the bound implied by xpoint_refine_atol.",
         technique="Coq proof on translated formulas + hand model of closure binding + independent-interpolant oracle on real equilibria and grids", design="6/C03"),
+    "C15": dict(
+        text="Coq state-machine model of the interactive path (build, redistributePoints(s), calculateRZ(), geometry()) whose branches are selected by facts REGENERATED from the "
+             "source (options re-created from scratch by the Equilibrium's factory, every region and every contour regridded unconditionally from the build-time sfunc_orthogonal_list, "
+             "R-Z arrays refreshed, geometry recomputes everything and is re-entrant).  Theorem by induction over histories of ANY length: no call raises and a final geometry() shows "
+             "exactly what a mesh built from scratch with the last settings shows.  Second theorem: for every history of PsiContour method calls (effect table regenerated from the class) "
+             "the cached distance list / FineContour are never stale.  Correspondence: real non-orthogonal BoutMesh objects driven through histories (GUI flow, partial settings dicts, "
+             "returning to earlier settings, geometry() twice, no calculateRZ, non-nonorthogonal keys mixed in; thorough: random histories incl. double null) and compared field by field "
+             "with cached fresh builds.",
+        note="Trusted: Coq kernel (no axioms); the numerical kernels (OptionsFactory.create, regrid+refine, derive) are Section variables whose functional dependence is the contract "
+             "monitored by the fresh-build comparison at 5e-7 m; translate/regrid.py.",
+        technique="Coq proof by induction over operation histories on a hand model selected by regenerated source facts + history correspondence with fresh builds", design="6/C15"),
 }
 
 PENDING = ["C01", "C03", "C04", "C05", "C06", "C07", "C08", "C09", "C10", "C11", "C12", "C13", "C14", "C15", "C16", "C17", "C18", "C19", "C20"]
